@@ -99,6 +99,10 @@ func init() {
 		in.allocLimit = int64(in.argInt(a[0]))
 		return nil
 	})
+	reg(ndPkg+".Prefer", func(in *Interp, fn *ssa.Function, a []Value) Value {
+		in.prefers = append(in.prefers, a[0].(*Term))
+		return nil
+	})
 	reg(ndPkg+".MaxLen", func(in *Interp, fn *ssa.Function, a []Value) Value {
 		in.maxSymLen = in.argInt(a[0])
 		return nil
